@@ -50,13 +50,16 @@ def msg_slug(msg) -> str:
 
 
 def fail_key(rule, exc_type, msg, cls) -> str:
+    """(rule id, exception type, message start, mutation class).  Exhausting the interpreter's recursion limit or the parser's stack
+    is the same failure whichever mutation produced the nesting (a dropped closing bracket, a repeated token, a reversed file ...):
+    those keys carry the class `nesting-blowup`."""
+    if exc_type == "RecursionError" or (exc_type == "MemoryError" and msg_slug(msg) in ("parser-stack-overflowed", "no-message")):
+        cls = "nesting-blowup"
     return f"fail:{rule}:{exc_type}:{msg_slug(msg)}:{cls}"
 
 
-def cpu_limit(nbytes: int) -> float:
-    """the 'hang' oracle of the in-process runs: CPU seconds allowed for one run with an offending file of this size
-    (a healthy 2 KB file costs about 0.01 s per rule set; the limit is far above linear extrapolation)"""
-    return 3.0 + 30e-6 * nbytes
+HANG_FACTOR = 100.0     # a run counts as a hang when it needs this many times the CPU time of the reference workload (scaled by size)
+NOTE_FACTOR = 20.0      # between NOTE_FACTOR and HANG_FACTOR: recorded as a note, never decides the exit status
 
 
 def _merge_known(chk: Check):
@@ -75,7 +78,7 @@ def _mk_case(cid, off, config, mode, pos):
     data = off["data"]
     heavy = off["cls"] in ("nesting-blowup", "length-blowup")
     return {"id": cid, "name": off["name"], "data": data, "config": config, "mode": mode, "pos": pos,
-            "cpu_limit": cpu_limit(len(data)), "weight": 1.0 + len(data) / 20000 + (6 if heavy else 0),
+            "weight": 1.0 + len(data) / 20000 + (6 if heavy else 0),
             "meta": {"cls": off["cls"], "kind": off["kind"], "lang": off["lang"]}}
 
 
@@ -85,7 +88,7 @@ def sweep_cases():
     for lang in c11_mut.LANGS:
         for kind in c11_mut.BLOWUP[lang]:
             ns = [1100]
-            if kind in ("paren", "binop", "attr", "call", "lambda", "array", "list", "block", "not"):
+            if kind in ("binop", "lambda", "paren"):
                 ns.append(3000)
             for n in ns:
                 if lang == "py" and kind in ("if-block", "def"):
@@ -187,6 +190,8 @@ def judge_stream(chk: Check, case, res, healthy_rules):
         payload = {"reason": reason, "key": key, **(extra or {}), **info}
         if key in chk.known["known"]:
             chk.known_seen.setdefault(key, payload)
+        elif key in chk.known["fixed"]:
+            chk.violation({**payload, "reason": f"finding {key} is recorded as fixed but was observed again: " + reason})
         else:
             chk.violation(payload)
 
@@ -225,20 +230,19 @@ def judge_stream(chk: Check, case, res, healthy_rules):
         problems += 1
         chk.violation({"reason": "the violations reported for the healthy files differ from the run without the offending file",
                        "missing": res.get("sib_missing"), "extra": res.get("sib_extra"), **info})
-    if res.get("cpu") is not None and res["cpu"] > case["cpu_limit"]:
+    limit = res.get("cpu_limit")
+    if res.get("cpu") is not None and limit and res["cpu"] > limit * NOTE_FACTOR / HANG_FACTOR:
         timed = sorted(res.get("slow_rules") or [], key=lambda x: -x[1])
-        rules = [r for r, t in timed if t > case["cpu_limit"] / 2] or [r for r, _ in timed[:1]] or ["unattributed"]
-        for r in rules:
-            # the mutation class is not what makes a run slow, so slow spots are keyed by rule; a listed slow rule that suddenly needs
-            # more than 60 CPU s (quick/thorough sizes stay below) is a different, unlisted key
-            key = f"slow:{r}" if res["cpu"] <= 60 else f"veryslow:{r}:{cls}"
-            reason = f"linting took {res['cpu']} CPU s for {len(case['data'])} bytes (limit {case['cpu_limit']:.1f} s)"
-            if key in chk.known["known"] or res["cpu"] > 2 * case["cpu_limit"]:
-                known_or_violation(key, reason, {"slow_rules": res.get("slow_rules")})
-            else:
-                # CPU time is noisy on a loaded machine: an unlisted spot counts only when it is at least twice over the limit
-                problems += 1
-                chk.notes.append(f"near the CPU limit, not counted: {key} {reason} [{case['id']}]")
+        rules = [r for r, t in timed if t > res["cpu"] / 3] or [r for r, _ in timed[:1]] or ["unattributed"]
+        reason = (f"linting took {res['cpu']} CPU s for {len(case['data'])} bytes: {res['cpu'] / max(res.get('expected') or 1e-9, 1e-9):.0f} x the reference "
+                  f"workload of this run ({res.get('expected')} s); hang threshold {HANG_FACTOR:.0f} x")
+        if res["cpu"] > limit:
+            # the mutation class is not what makes a run slow, so slow spots are keyed by rule
+            for r in rules:
+                known_or_violation(f"slow:{r}", reason, {"slow_rules": res.get("slow_rules")})
+        else:
+            problems += 1
+            chk.notes.append(f"slow but below the hang threshold, not counted: {'+'.join(rules)} {reason} [{case['id']}]")
     nontrivial = problems > 0 or res.get("own_rules") != healthy_rules.get(m["lang"]) or res.get("lang") not in ("python", "typescript", "javascript", "rust")
     return nontrivial
 
@@ -302,6 +306,9 @@ def cli_part(chk: Check, seed: int, stream_cases, n_cli: int, sd: Path):
         return d
 
     base_dirs = {False: mkdir("cli-base", sibs), True: mkdir("cli-base-par", sibs + extra)}
+    ref = _cli_one((base_dirs[False], ["nesting", "--format", "json", "."], sd / "cli-fl-ref", 600))   # reference run: calibrates the wall limit
+    wall_limit = max(CLI_WALL_LIMIT, HANG_FACTOR * ref["wall"])
+    chk.extra_cov["cli_reference_wall_s"] = ref["wall"]
     base_keys = {}
     for i, c in enumerate(chosen):
         r = rng_for(seed, PROP, "cli", c["id"])
@@ -318,10 +325,10 @@ def cli_part(chk: Check, seed: int, stream_cases, n_cli: int, sd: Path):
         key = (cmd, par, explicit)
         if key not in base_keys:
             base_keys[key] = len(jobs)
-            jobs.append((base_dirs[par], args + (names if explicit else ["."]), sd / f"cli-fl-base-{len(jobs)}", CLI_WALL_LIMIT))
+            jobs.append((base_dirs[par], args + (names if explicit else ["."]), sd / f"cli-fl-base-{len(jobs)}", wall_limit))
             metas.append(("base", key, None))
         pos = r.randrange(len(names) + 1)
-        jobs.append((d, args + ((names[:pos] + [c["name"]] + names[pos:]) if explicit else ["."]), sd / f"cli-fl-{i}", CLI_WALL_LIMIT))
+        jobs.append((d, args + ((names[:pos] + [c["name"]] + names[pos:]) if explicit else ["."]), sd / f"cli-fl-{i}", wall_limit))
         metas.append(("case", key, c))
     with ThreadPoolExecutor(max_workers=6) as ex:
         outs = list(ex.map(_cli_one, jobs))
@@ -349,7 +356,7 @@ def cli_part(chk: Check, seed: int, stream_cases, n_cli: int, sd: Path):
                 chk.violation(payload)
 
         if o["rc"] == 124:
-            kv(f"hang:{cls}", f"thailint {key[0]} did not finish within {CLI_WALL_LIMIT:.0f} s")
+            kv(f"hang:{cls}", f"thailint {key[0]} did not finish within {wall_limit:.0f} s (100 x a reference CLI run of this moment, at least {CLI_WALL_LIMIT:.0f} s)")
             continue
         err = _strip_ansi(o["stderr"])
         if o["rc"] not in (0, 1):
@@ -514,7 +521,7 @@ def run(tier: str, seed: int, replay: str | None = None) -> int:
         "raise, hang nor exhaust the stack on a given byte string - established only for the generated mutation stream of this run",
         "hook H1 (_verif_failure_tap in src/orchestrator/core.py) as the observer of swallowed exceptions; theorem C11_failure_log_complete shows the "
         "model's three containment sites log every swallowed failure, that the code has no fourth site is checked by the generated shape items",
-        "the 'hang' clause is a CPU-time limit (3 s + 30 us/byte per run of 10 files in-process, worker killed after 100 CPU s; 150 s wall per CLI command)",
+        "the 'hang' clause is calibrated in every run: CPU time of the worker process only, compared with a reference workload (the healthy files alone, measured twice in the same worker) scaled by total size; hang = 100 x that (20 x..100 x is a note and never decides the exit status); a worker is killed after 100 CPU s; a CLI command may take 100 x the wall time of a reference CLI run of the same moment (at least 150 s)",
         "finalize() is assumed not to raise (hypothesis final_safe of the theorems; no input making it raise was found; C11_finalize_failure_crashes "
         "states what happens otherwise)",
     ]
@@ -527,7 +534,7 @@ def run(tier: str, seed: int, replay: str | None = None) -> int:
     n_stub = (220 if quick else 2200) * scale
     n_detect = (240 if quick else 2400) * scale
     n_stream = (90 if quick else 4000) * scale
-    n_cli = 40 if quick else 400
+    n_cli = 30 if quick else 400
     c11_mut.BIG = not quick
     with scratch_dir("tv-c11-") as sd:
         if replay:
